@@ -12,7 +12,7 @@ ParamMaps == {PairsOf(D, f) : D \in SUBSET Keys, f \in [Keys -> Vals]}
 Ctors == {<<"Get", "-">>, <<"Delete", "-">>, <<"PostJSON", "-">>, <<"PutJSON", "-">>, <<"PatchJSON", "-">>, <<"PostMultipart", "-">>,
           <<"PutMultipart", "-">>, <<"PatchMultipart", "-">>, <<"DoNewRequest", "OPTIONS">>, <<"DoNewRequest", "GET">>,
           <<"WithBodySerializer", "PUT">>, <<"WithBodySerializer", "POST">>, <<"WithMultipartSerializer", "PATCH">>}
-Hdrs == {<< <<"X-A", "1">> >>, << <<"X-A", "1">>, <<"X-B", "2">> >>, <<>>}
+Hdrs == {<< <<"X-A", "1">> >>, << <<"X-A", "1">>, <<"X-B", "2">> >>, <<>>, << <<"Content-Type", "text/plain">>, <<"X-A", "1">> >>}
 Base == [ctor |-> "Get", m |-> "-", tmpl |-> <<L("plain")>>, params |-> <<>>, hdr |-> << <<"X-A", "1">> >>, hdrNil |-> FALSE,
          fault |-> "none", evals |-> 1, body |-> "B"]
 UrlCases == {[Base EXCEPT !.ctor = ct, !.tmpl = t, !.params = pm] : ct \in {"Get", "PostJSON", "PostMultipart"}, t \in Templates, pm \in ParamMaps}
